@@ -224,6 +224,7 @@ func runC37(c *Ctx) []Obligation {
 	})...)
 	out = append(out, c.featurePredicatesAgree(P)...)
 	out = append(out, upgradeMergeReadsStored(c, P)...)
+	out = append(out, upgradeMergeBranches(c, P)...)
 	return out
 }
 
